@@ -87,7 +87,7 @@ def ajumpOrPop (t pc : Nat) (s : ASt) : Option (List (Nat × ASt)) :=
 def astep (i : VInstr) (own : Bool) (nspans : Nat) (pc : Nat) (s : ASt) : Option (List (Nat × ASt)) :=
   let next (stk : List Tag) : Option (List (Nat × ASt)) := some [(pc + 1, { s with stack := stk })]
   match i with
-  | .loadConst v => next (⟨isArrV v, v.isMap, own, okBoundV v⟩ :: s.stack)
+  | .loadConst v => next (⟨false, v.isMap, own, okBoundV v⟩ :: s.stack)
   | .loadName _ => next (Tag.fresh own :: s.stack)
   | .loadPath p => if p ≠ [] ∧ p.length ≤ nspans then next (Tag.fresh own :: s.stack) else none
   | .writePath p => if p ≠ [] ∧ p.length ≤ nspans then next s.stack else none
@@ -262,27 +262,27 @@ def merge (table : List (Option ASt)) (succ : Nat × ASt) : Option (List (Option
     | _ => some (table.set succ.1 (some succ.2))
   else some table
 
-def inferPass (code : List VEntry) : Nat → List (Option ASt) → Option (List (Option ASt))
-  | pc, table =>
-    if h : pc < code.length then
+def inferPass (code : List VEntry) : Nat → Nat → List (Option ASt) → Option (List (Option ASt))
+  | 0, _, table => some table
+  | fuel + 1, pc, table =>
+    match code[pc]? with
+    | none => some table
+    | some e =>
       match table[pc]? with
       | some (some a) =>
-        let e := code[pc]
         match astep e.1 (!e.2.isEmpty) e.2.length pc a with
         | none => none
         | some succs =>
           match succs.foldlM merge table with
           | none => none
-          | some table' => inferPass code (pc + 1) table'
-      | _ => inferPass code (pc + 1) table
-    else some table
-termination_by pc _ => code.length - pc
+          | some table' => inferPass code fuel (pc + 1) table'
+      | _ => inferPass code fuel (pc + 1) table
 
 /-- passes until the table no longer changes (a backward jump can lower an entry already used) -/
 def inferFix (code : List VEntry) : Nat → List (Option ASt) → Option (List (Option ASt))
   | 0, table => some table
   | n + 1, table =>
-    match inferPass code 0 table with
+    match inferPass code code.length 0 table with
     | none => none
     | some table' => if table' == table then some table else inferFix code n table'
 
